@@ -664,6 +664,27 @@ Section Lossless.
   Lemma trunc_sec_id t : tnsec t = 0 -> trunc_sec t = t.
   Proof. destruct t as [a ns off]. cbn. intros ->. reflexivity. Qed.
 
+  (* (since fix F7 a time outside the years 0..9999 is refused by ToString: the export lemmas carry year_ok) *)
+  Lemma year_ok_trunc t : year_ok t -> year_ok (trunc_sec t).
+  Proof. intros H. exact H. Qed.
+
+  Lemma export_datetime_time t : year_ok t ->
+    export_scalar O FDateTime (RS (VTime t)) = Ok (RS (VStr (fmt_rfc3339 t))).
+  Proof. intros Hy. cbn [export_scalar to_gval]. rewrite (exportToDateTime_time O t Hy). reflexivity. Qed.
+
+  Lemma export_string_time t : year_ok t ->
+    export_scalar O FString (RS (VTime t)) = Ok (RS (VStr (fmt_rfc3339 t))).
+  Proof.
+    intros Hy. cbn [export_scalar to_gval]. unfold exportToString, exportToString_5, exportToString_body.
+    rewrite (ToString_time O t Hy). reflexivity.
+  Qed.
+
+  Ltac time_trunc_tac :=
+    match goal with
+    | Hy : year_ok ?t |- export_scalar _ FDateTime (RS (VTime (trunc_sec ?t))) = _ => exact (export_datetime_time (trunc_sec t) Hy)
+    | Hy : year_ok ?t |- export_scalar _ FString (RS (VTime (trunc_sec ?t))) = _ => exact (export_string_time (trunc_sec t) Hy)
+    end.
+
   Lemma ToTime_fmt t : no_wrap t -> year_ok t -> off_ok (toff t) ->
     ToTime O (VStr (fmt_rfc3339 t)) = Ok (VTime (trunc_sec t)).
   Proof. intros Hw Hy Ho. apply ToTime_of_fast. now apply parse_format_rfc3339. Qed.
@@ -672,7 +693,8 @@ Section Lossless.
     column_ok_upto c FDateTime (VTime t0) (VTime t) (VTime (trunc_sec t))
                    (VStr (fmt_rfc3339 t)) (JStr (fmt_rfc3339 t)) (encode_string (fmt_rfc3339 t)).
   Proof.
-    intros Hc Hw Hy Ho. unfold column_ok_upto. repeat split; try assumption; try discriminate.
+    intros Hc Hw Hy Ho. unfold column_ok_upto. repeat split; try assumption; try discriminate;
+      try (apply export_datetime_time; assumption); try (apply export_string_time; assumption); try time_trunc_tac.
     - constructor. apply ascii_ustr, plain_ascii, fmt_rfc3339_plain; assumption.
     - cbn [rv_of_jv import_scalar to_gval]. unfold importFromDateTime.
       change (To O (VTime t0) (VStr (fmt_rfc3339 t))) with (ToTime O (VStr (fmt_rfc3339 t))).
@@ -683,7 +705,8 @@ Section Lossless.
     column_ok_upto c FString (VTime t0) (VTime t) (VTime (trunc_sec t))
                    (VStr (fmt_rfc3339 t)) (JStr (fmt_rfc3339 t)) (encode_string (fmt_rfc3339 t)).
   Proof.
-    intros Hc Hw Hy Ho. unfold column_ok_upto. repeat split; try assumption; try discriminate.
+    intros Hc Hw Hy Ho. unfold column_ok_upto. repeat split; try assumption; try discriminate;
+      try (apply export_datetime_time; assumption); try (apply export_string_time; assumption); try time_trunc_tac.
     - constructor. apply ascii_ustr, plain_ascii, fmt_rfc3339_plain; assumption.
     - cbn [rv_of_jv import_scalar to_gval]. unfold importFromString.
       change (To O (VTime t0) (VStr (fmt_rfc3339 t))) with (ToTime O (VStr (fmt_rfc3339 t))).
@@ -706,7 +729,8 @@ Section Lossless.
     column_ok_upto c FTimestamp (VTime t0) (VTime t) (VTime (time_Unix O (tsec t)))
                    (VInt KInt64 (tsec t)) (JNum (dec (tsec t))) (dec (tsec t)).
   Proof.
-    intros Hc Hr. unfold column_ok_upto. repeat split; try assumption; try discriminate.
+    intros Hc Hr. unfold column_ok_upto. repeat split; try assumption; try discriminate;
+      try (apply export_datetime_time; assumption); try (apply export_string_time; assumption); try time_trunc_tac.
     - cbn. apply marshal_dec.
     - constructor. apply jnumber_dec.
     - cbn [rv_of_jv import_scalar to_gval]. unfold importFromTimestamp.
@@ -718,7 +742,8 @@ Section Lossless.
     column_ok_upto c FNumeric (VTime t0) (VTime t) (VTime (time_Unix O (tsec t)))
                    (VNum (dec (tsec t))) (JNum (dec (tsec t))) (dec (tsec t)).
   Proof.
-    intros Hc Hr. unfold column_ok_upto. repeat split; try assumption; try discriminate.
+    intros Hc Hr. unfold column_ok_upto. repeat split; try assumption; try discriminate;
+      try (apply export_datetime_time; assumption); try (apply export_string_time; assumption); try time_trunc_tac.
     - cbn. now rewrite marshal_dec.
     - cbn. apply marshal_dec.
     - constructor. apply jnumber_dec.
@@ -742,7 +767,8 @@ Section Lossless.
     column_ok c FAuto (VTime t0) (VTime t) (VTime t) (JStr (fmt_rfc3339 t)) (encode_string (fmt_rfc3339 t)).
   Proof.
     intros Hc Hw Hy Ho Hn. pose proof (fmt_rfc3339_plain t Hw Hy Ho) as Hp.
-    unfold column_ok. repeat split; try assumption; try discriminate.
+    unfold column_ok. repeat split; try assumption; try discriminate;
+      try (apply export_datetime_time; assumption); try (apply export_string_time; assumption); try time_trunc_tac.
     - cbn [marshal_gval]. rewrite time_marshal_whole by assumption. rewrite encode_string_plain by exact Hp. reflexivity.
     - constructor. apply ascii_ustr, plain_ascii, Hp.
     - cbn [rv_of_jv import_scalar]. unfold cast_to. cbn [to_gval].
@@ -866,7 +892,8 @@ Section Lossless.
     assert (Hp : Forall plain_char (fmt_rfc3339nano t)).
     { destruct (fmt_rfc3339nano_text t Hw Hy Ho Hn) as [Hcv E]. rewrite E.
       apply rfc3339_text_plain; [exact Hcv | apply frac_digits_spec; exact Hn | apply zone_of_off_ok; exact Ho]. }
-    unfold column_ok. repeat split; try assumption; try discriminate.
+    unfold column_ok. repeat split; try assumption; try discriminate;
+      try (apply export_datetime_time; assumption); try (apply export_string_time; assumption); try time_trunc_tac.
     - cbn [marshal_gval]. rewrite time_marshal_nanos by assumption. rewrite encode_string_plain by exact Hp. reflexivity.
     - constructor. apply ascii_ustr, plain_ascii, Hp.
     - cbn [rv_of_jv import_scalar]. unfold cast_to. cbn [to_gval].
@@ -1006,7 +1033,8 @@ Section Lossless.
     intros Hc Hz Hslow.
     assert (Hr : in_range KInt64 (tsec t)) by (apply in_range_i64_55; exact Hz).
     assert (Hl : bytes_ok (int_le_bytes KInt64 (tsec t))) by apply le_bytes_ok.
-    unfold column_ok_upto. repeat split; try assumption; try discriminate.
+    unfold column_ok_upto. repeat split; try assumption; try discriminate;
+      try (apply export_datetime_time; assumption); try (apply export_string_time; assumption); try time_trunc_tac.
     - constructor. apply ascii_ustr, base64_encode_ascii, Hl.
     - cbn [rv_of_jv import_scalar to_gval]. unfold importFromBinary.
       change (ToString O (VStr ?s)) with (Ok (VStr s) : res gval).
